@@ -135,7 +135,7 @@ def run(tier):
                         {"input": s, "yield_of_parse": y, "problem": "the library built a tree although part of the string is not part of the parse"})
             continue
         if not gen and i < len(texts) + len(foreign):
-            if drv.call("accepts", s) != "1" and s.count("(") <= 9:
+            if drv.call("accepts", s) != "1":
                 report.fail({"site": "parser", "kind": "foreign-text-accepted"}, {"input": s, "nodes": o["nodes"]})
                 continue
             stats["foreign_accepted_derivable"] += 1
